@@ -137,8 +137,187 @@ pub fn check_in(ctx: &Ctx, case: &PrefixCase, counters: &std::cell::Cell<[u64; 6
     rep
 }
 
+
+// ------------------------------------------------------------------ crafted containers --
+// The interesting prefixes are those whose last 8 bytes, read as the footer length, fit into the
+// file: the reader then parses whatever part data precedes them as a stream directory. In archives
+// of random sequence that needs ~6 zero bytes in a row in compressed data (38 of 5*10^5 prefixes
+// in a quick run). This stage reaches the region by construction: containers written with ragc's
+// own Archive writer whose part payloads are built from chunks that make such prefixes frequent
+// (runs of 0x00 and 0xFF, little-endian back-pointers into earlier data, count bytes 0xFF followed
+// by >= 255 bytes, varint-looking byte groups). Every byte string can occur in a part of a real
+// archive (ZSTD frames, stored-raw tuple-packed segments: poly-A packs to 0x00, poly-T to 0xFF), so
+// these are valid archive files in the sense of the statement.
+
+#[derive(Clone, Debug, Hash, Serialize, Deserialize)]
+pub enum Chunk {
+    Rand { seed: u64, len: u16 },
+    Zero(u8),
+    Ff(u8),
+    /// little-endian u64 pointing back into the bytes written so far (fraction / 65536 of them), minus `sub`
+    Back { frac: u16, sub: u8 },
+    /// 0xFF count byte followed by this many random bytes
+    CountFf { seed: u64, len: u16 },
+    /// groups that look like directory varints: (number of bytes 0..=9, value bytes)
+    Varints { seed: u64, n: u8 },
+    /// a stream-directory look-alike: count, then NUL-terminated names and small varints
+    FakeDir { seed: u64, streams: u8 },
+}
+
+#[derive(Clone, Debug, Hash, Serialize, Deserialize)]
+pub struct CraftedPart {
+    pub stream: u8,
+    pub meta: u64,
+    pub chunks: Vec<Chunk>,
+}
+
+#[derive(Clone, Debug, Hash, Serialize, Deserialize)]
+pub struct CraftedCase {
+    pub real_names: bool,
+    pub parts: Vec<CraftedPart>,
+    pub only: Option<Vec<u64>>,
+}
+
+fn put_varint(out: &mut Vec<u8>, v: u64) {
+    if v == 0 {
+        out.push(0);
+        return;
+    }
+    let n = (64 - v.leading_zeros() as usize + 7) / 8;
+    out.push(n as u8);
+    for i in (0..n).rev() {
+        out.push((v >> (8 * i)) as u8);
+    }
+}
+
+fn expand_chunks(chunks: &[Chunk], written_before: usize) -> Vec<u8> {
+    use crate::util::SplitMix;
+    let mut out: Vec<u8> = Vec::new();
+    for c in chunks {
+        match c {
+            Chunk::Rand { seed, len } => {
+                let mut r = SplitMix::new(*seed);
+                out.extend((0..*len).map(|_| r.next() as u8));
+            }
+            Chunk::Zero(n) => out.extend(std::iter::repeat(0u8).take(*n as usize)),
+            Chunk::Ff(n) => out.extend(std::iter::repeat(0xFFu8).take(*n as usize)),
+            Chunk::Back { frac, sub } => {
+                let total = (written_before + out.len()) as u64;
+                let v = (total * *frac as u64 >> 16).saturating_sub(*sub as u64);
+                out.extend(v.to_le_bytes());
+            }
+            Chunk::CountFf { seed, len } => {
+                let mut r = SplitMix::new(*seed);
+                out.push(0xFF);
+                out.extend((0..*len).map(|_| r.next() as u8));
+            }
+            Chunk::Varints { seed, n } => {
+                let mut r = SplitMix::new(*seed);
+                for _ in 0..*n {
+                    let k = r.below(11);
+                    let k = if k == 10 { 255 } else { k };
+                    out.push(k as u8);
+                    out.extend((0..k.min(9)).map(|_| r.next() as u8));
+                }
+            }
+            Chunk::FakeDir { seed, streams } => {
+                let mut r = SplitMix::new(*seed);
+                put_varint(&mut out, *streams as u64);
+                for s in 0..*streams {
+                    out.extend(format!("x{}", s).as_bytes());
+                    out.push(0);
+                    let np = r.below(4);
+                    put_varint(&mut out, np);
+                    put_varint(&mut out, r.below(1 << 20));
+                    for _ in 0..np {
+                        put_varint(&mut out, r.below(1 << 16));
+                        put_varint(&mut out, r.below(1 << 10));
+                    }
+                }
+            }
+        }
+    }
+    out
+}
+
+fn write_crafted(case: &CraftedCase, path: &Path) -> Result<u64, String> {
+    use ragc_common::Archive;
+    let names: [&str; 5] = if case.real_names { ["file_type_info", "params", "collection-samples", "collection-contigs", "collection-details"] } else { ["s0", "s1", "seg-a", "xAAr", "xAAd"] };
+    let mut w = Archive::new_writer();
+    w.open(path).map_err(|e| format!("open for writing: {}", e))?;
+    let ids: Vec<usize> = names.iter().map(|n| w.register_stream(n)).collect();
+    let mut written = 0usize;
+    for p in &case.parts {
+        let data = expand_chunks(&p.chunks, written);
+        written += data.len() + 2;
+        w.add_part(ids[p.stream as usize % ids.len()], &data, p.meta).map_err(|e| format!("add_part: {}", e))?;
+    }
+    w.close().map_err(|e| format!("close: {}", e))?;
+    std::fs::metadata(path).map(|m| m.len()).map_err(|e| e.to_string())
+}
+
+pub fn check_crafted(ctx: &Ctx, case: &CraftedCase, counters: &std::cell::Cell<[u64; 6]>) -> Report {
+    let dir = ctx.scratch("c14c");
+    let archive = dir.file("crafted.agc");
+    let len = match guarded(|| write_crafted(case, &archive)) {
+        Ok(Ok(l)) => l,
+        Ok(Err(e)) => return Report::inconclusive(format!("harness: cannot write the crafted container: {}", e)),
+        Err(p) => return Report::inconclusive(format!("harness: writing the crafted container panicked (C13's subject): {}", p)),
+    };
+    let exe = std::env::current_exe().expect("current exe");
+    let mut rep = Report::pass(false).label("crafted-container").label_if(case.real_names, "crafted:real-stream-names");
+    let mut all: Vec<(u64, String)> = Vec::new();
+    let mut c6 = counters.get();
+    let mut in_range = 0;
+    for (which, bin) in [("release", exe.as_path()), ("checked", ctx.vcheck_checked.as_path())] {
+        if !bin.exists() {
+            return Report::inconclusive(format!("the {} build of the harness is missing: {}", which, bin.display()));
+        }
+        let s = sweep(bin, &archive, &dir.path, len, 1, which, &case.only);
+        if let Some(m) = s.inconclusive {
+            return Report::inconclusive(m);
+        }
+        c6[0] += s.tried;
+        c6[1] += s.classes[0];
+        c6[2] += s.classes[1];
+        c6[3] += s.classes[2];
+        c6[4] += s.classes[3];
+        c6[5] += s.archive_open_ok;
+        in_range += s.classes[2];
+        for (n, w) in s.violations {
+            all.push((n, format!("[{} build] prefix {} of {}: {}", which, n, len, w)));
+        }
+    }
+    counters.set(c6);
+    rep.nontrivial = in_range >= 2;
+    rep = rep.label_if(in_range >= 2, "crafted:prefix-with-in-range-length");
+    if !all.is_empty() {
+        all.sort();
+        let n = all.len();
+        let first = &all[0];
+        let distinct: std::collections::BTreeSet<String> = all.iter().map(|(_, w)| w.split(": ").skip(1).collect::<Vec<_>>().join(": ").chars().take(90).collect()).collect();
+        rep.verdict = Verdict::Fail(format!("{} prefix(es) of a crafted container not rejected cleanly; first: {}; kinds: {:?}", n, first.1, distinct.iter().take(4).collect::<Vec<_>>()));
+    }
+    rep
+}
+
+fn crafted_strategy() -> impl proptest::strategy::Strategy<Value = CraftedCase> {
+    use proptest::prelude::*;
+    let chunk = prop_oneof![
+        3 => (any::<u64>(), 1u16..300).prop_map(|(seed, len)| Chunk::Rand { seed, len }),
+        2 => (1u8..24).prop_map(Chunk::Zero),
+        2 => (1u8..24).prop_map(Chunk::Ff),
+        4 => (any::<u16>(), 0u8..24).prop_map(|(frac, sub)| Chunk::Back { frac, sub }),
+        3 => (any::<u64>(), prop_oneof![250u16..262, 262u16..700]).prop_map(|(seed, len)| Chunk::CountFf { seed, len }),
+        2 => (any::<u64>(), 1u8..40).prop_map(|(seed, n)| Chunk::Varints { seed, n }),
+        2 => (any::<u64>(), prop_oneof![0u8..6, Just(255u8)]).prop_map(|(seed, streams)| Chunk::FakeDir { seed, streams }),
+    ];
+    let part = (0u8..5, prop_oneof![Just(0u64), 1u64..300, any::<u64>()], prop::collection::vec(chunk, 1..10)).prop_map(|(stream, meta, chunks)| CraftedPart { stream, meta, chunks });
+    (any::<bool>(), prop::collection::vec(part, 1..8)).prop_map(|(real_names, parts)| CraftedCase { real_names, parts, only: None })
+}
+
 fn cfg() -> GenCfg {
-    GenCfg { max_contig: 12000, max_samples: 6, many_samples_pct: 6, single_file: None, vary_presentation: false }
+    GenCfg { max_contig: 12000, max_samples: 6, many_samples_pct: 6, single_file: None, vary_presentation: false, swarm_pct: 0 }
 }
 
 pub fn run(ctx: &Ctx, stats: &mut Stats) {
@@ -149,6 +328,9 @@ pub fn run(ctx: &Ctx, stats: &mut Stats) {
     {
         let check = |c: &PrefixCase| check_in(&c2, c, &counters);
         run_prop(ctx, stats, "archives", n, gen::collection_strategy(cfg()).prop_map(|collection| PrefixCase { collection, only: None }), &check);
+        let n2 = ctx.tier.pick(320, 6_000);
+        let check2 = |c: &CraftedCase| check_crafted(&c2, c, &counters);
+        run_prop(ctx, stats, "crafted-containers", n2, crafted_strategy(), &check2);
     }
     let c = counters.get();
     stats.add_extra_count("prefix_opens", c[0]);
@@ -159,8 +341,14 @@ pub fn run(ctx: &Ctx, stats: &mut Stats) {
     stats.add_extra_count("container_open_accepted_prefix", c[5]);
 }
 
-pub fn replay(ctx: &Ctx, _stage: &str, case: &Value) -> Report {
+pub fn replay(ctx: &Ctx, stage: &str, case: &Value) -> Report {
     let counters = std::cell::Cell::new([0u64; 6]);
+    if stage == "crafted-containers" {
+        return match from_case::<CraftedCase>(case) {
+            Ok(c) => check_crafted(ctx, &c, &counters),
+            Err(e) => Report::fail(e),
+        };
+    }
     match from_case::<PrefixCase>(case) {
         Ok(c) => check_in(ctx, &c, &counters),
         Err(e) => Report::fail(e),
@@ -170,7 +358,7 @@ pub fn replay(ctx: &Ctx, _stage: &str, case: &Value) -> Report {
 pub const INFO: PropInfo = PropInfo {
     id: "C14",
     level: "fault_enumeration",
-    rule: "cases = archives created by `ragc create` from generated collections (16 quick / 96 thorough; both modes; ~3..300 kB); for each archive EVERY strict prefix length n in 0..len-1 (archives > 200 kB: every n within 4 kB of either end plus every 8th in between) is produced by truncating a copy in place and opened with Archive::open and Decompressor::open in a child process under RLIMIT_AS = 4 GiB, once with the release build of the harness and once with the overflow-checked build. Oracle: Decompressor::open returns Err (a returned handle is a violation whether or not samples are readable), no panic, the child does not die (abort / signal = e.g. a garbage-sized allocation), within the watchdog. The number of opens and the distribution of the prefix's last 8 bytes read as a length (>= 2^63, > file size, <= file size, file shorter than 8 bytes) are reported. Non-trivial archive = its prefixes cover both out-of-range length classes (>= 2^63 and > file size; in-range values need five zero bytes and are rare); distinct = distinct collection.",
+    rule: "cases = archives created by `ragc create` from generated collections (16 quick / 96 thorough; both modes; ~3..300 kB); for each archive EVERY strict prefix length n in 0..len-1 (archives > 200 kB: every n within 4 kB of either end plus every 8th in between) is produced by truncating a copy in place and opened with Archive::open and Decompressor::open in a child process under RLIMIT_AS = 4 GiB, once with the release build of the harness and once with the overflow-checked build. Oracle: Decompressor::open returns Err (a returned handle is a violation whether or not samples are readable), no panic, the child does not die (abort / signal = e.g. a garbage-sized allocation), within the watchdog. The number of opens and the distribution of the prefix's last 8 bytes read as a length (>= 2^63, > file size, <= file size, file shorter than 8 bytes) are reported. Non-trivial archive = its prefixes cover both out-of-range length classes (>= 2^63 and > file size; in-range values need five zero bytes and are rare); distinct = distinct collection. Stage crafted-containers (320 quick / 6000 thorough): containers written with ragc's own Archive writer whose part payloads are generated from chunks that make in-range footer lengths frequent (runs of 0x00 / 0xFF, little-endian back-pointers into earlier data, a 0xFF count byte followed by >= 255 bytes, varint-looking groups incl. length bytes 9 and 255, directory look-alikes), with real or neutral stream names; every strict prefix, both builds, same oracle; non-trivial = at least 2 prefixes whose last 8 bytes are an in-range length.",
     assumptions: &["the file is written front to back in one pass at finalize, so strict prefixes are exactly the states a crash / kill / full disk / interrupted copy leaves", "Archive::open alone accepting a prefix is counted (container_open_accepted_prefix) but only a Decompressor handle is a violation"],
     needs_cli: true,
     needs_checked: true,
